@@ -227,7 +227,6 @@ func runDeviceChains(c *Ctx) {
 	}
 }
 
-
 // The same chains with raw sockets at both ends and the pipe ids observed on every socket: the header the raw server
 // receives must be the one Model/Device.lean computes from those ids (own pipe, then one word per device, most recent
 // first, then the request id), the payload unchanged; the reply sent with that header must come back to the client
